@@ -120,7 +120,13 @@ func deepCastRecursive(val Value, typ ast.Type, span errors.Span, allowCasts boo
 			}
 			return NewValueOption(innerCast), nil
 		}
-		return NewValueOption(&val), nil
+
+		// A value of type `T` is only admitted into `?T` if it conforms to `T`.
+		innerCast, i := deepCastRecursive(val, typ.(ast.OptionType).Inner, span, allowCasts, fieldURI)
+		if i != nil {
+			return nil, i
+		}
+		return NewValueOption(innerCast), nil
 	}
 
 	switch val.Kind() {
